@@ -828,7 +828,7 @@ func init() {
 					r.Check(okZero, core.FuncName(fn)+"#missing-jitter=0", an.Pos(c, in), "missing jitter defaults to 0", "a stage without a jitter setting gets a non-zero jitter: zero jitter is no longer the identity for it")
 				})
 			}
-			r.Floor("default jitter allocations", n, 4)
+			r.Floor("default jitter allocations", n, 1)
 			wrappingOrder(c, r)
 		})
 	})
@@ -856,9 +856,30 @@ func init() {
 	})
 	extra["C20"] = append(extra["C20"], func(c *core.Ctx, r *core.Report) {
 		rule(r, "C20.R5", "combining any number of components (also none) never indexes the component list out of range (the bounding idioms of C14.R1)", func() {
-			boundsRuleFor(c, r, func(fn *ssa.Function) bool {
-				return core.RelPkg(fn) == "pkg/f1" && an.Outermost(fn).Name() == "CombineScenarios"
-			}, 1)
+			// CombineScenarios, its literals, and the helpers of its package they call
+			sel := map[*ssa.Function]bool{}
+			var add func(fn *ssa.Function, depth int)
+			add = func(fn *ssa.Function, depth int) {
+				if fn == nil || sel[fn] || fn.Blocks == nil || core.RelPkg(fn) != "pkg/f1" {
+					return
+				}
+				sel[fn] = true
+				for _, lit := range fn.AnonFuncs {
+					add(lit, depth)
+				}
+				if depth == 0 {
+					return
+				}
+				for _, call := range an.AllCalls(fn) {
+					add(an.Callee(call), depth-1)
+				}
+			}
+			for _, fn := range c.AllFuncs {
+				if core.RelPkg(fn) == "pkg/f1" && fn.Parent() == nil && fn.Name() == "CombineScenarios" {
+					add(fn, 3)
+				}
+			}
+			boundsRuleFor(c, r, func(fn *ssa.Function) bool { return sel[fn] }, 1)
 		})
 	})
 	extra["C14"] = append(extra["C14"], func(c *core.Ctx, r *core.Report) {
